@@ -683,6 +683,8 @@ def check_C16(ctx):
             for a_ in (ABSENT, S('s'), ('b', True), ('m', []), ('nil',), I(1), F(1.5), S('v1'), ('o', 1), ('str', b'v1'), ('i64', 1)):
                 cs.eval(lt_, mk_obj(['x'], a_), 'dbg-long-lists')
                 cs.eval('k eq 1 and ' + lt_, mk_obj(['x'], a_, extra={'k': I(1)}), 'dbg-long-lists')
+    for (t_, o_, fam_, *_m) in scale.straddling_strings(ctx):
+        cs.eval(t_, o_, fam_)
     # an attribute value whose String() calls Process on the very evaluator that is evaluating it: the diagnostic of the outer call is the outer call's
     for t_ in ['x eq "abc" and k eq 1', 'zz eq 1 or x eq "abc"', 'x co "b"', 'x eq "abc" or zz eq 1', 'zz eq 1 or (x sw "a" and k eq 1)', 'x in ["abc", "q"] and k eq 1', 'k gt "s" or x ew "c"', 'x eq "abcd" and k eq 1',
                'zz pr or x eq "abcd"', 'n.x eq "abc" and zz.y eq 1', 'x eq "zzz" or k eq 1']:
@@ -1477,6 +1479,8 @@ def check_C07(ctx):
         for i_ in range(len(T_OBJS) - 2):
             ops = [('p', T_OBJS[i_]), ('d',), ('p', T_OBJS[i_ + 1]), ('d',), ('r',), ('p', T_OBJS[i_ + 2]), ('d',), ('p', T_OBJS[i_]), ('r',), ('d',)]
             cs.hist(text, ops, 'kept-errors')
+    for (t_, o_, fam_, *_m) in scale.straddling_strings(ctx):
+        cs.eval(t_, o_, fam_)
     # each batch in its own child process: a killed process is observed and attributed
     res = ctx.run(cs, nshards=ctx.n(16, 32))
     ctx.compare([c for c in cs.cases if c.kind != 'hist'], res, ['verdict', 'err'])
